@@ -64,8 +64,11 @@ func (u *User) init() error {
 		}
 	}
 
-	initMatchers(u.PushAccess, &u.pushMatchers)
-	initMatchers(u.PullAccess, &u.pullMatchers)
+	// 每次都从权限字串重建匹配器；在旧匹配器上追加会让已收窄/删除的权限继续生效
+	var pushMatchers, pullMatchers []PathMatcher
+	initMatchers(u.PushAccess, &pushMatchers)
+	initMatchers(u.PullAccess, &pullMatchers)
+	u.pushMatchers, u.pullMatchers = pushMatchers, pullMatchers
 	return nil
 }
 
